@@ -1,6 +1,6 @@
 (* Entry points of the C05 / C11 correspondence cases (evaluated by vm_compute in the generated case files). *)
 From Coq Require Import List NArith ZArith Bool String.
-From SudachiVerif Require Import Model.Codec Model.CodecConn.
+From SudachiVerif Require Import Model.Codec Model.CodecConn Model.CodecResolve.
 From SudachiVerif Require Generated.FieldOrder.
 Import ListNotations.
 Open Scope N_scope.
@@ -112,6 +112,28 @@ Definition check_c05_model_only
       let lx := lexicon_of_file file offset in
       forall3 (fun wid (_ : entry) rb => rb_eqb (model_readback lx file offset dict_id nsys pos_offset wid) rb)
               (iota (List.length es) 0) es rbs).
+
+(* the same with the split columns as written in the CSV: the Resolve model (Model/CodecResolve.v, the one
+   C05_resolve_sound is about) turns the rows into entries; `sys` = entries of the system dictionary a user dictionary
+   is compiled against *)
+Definition check_c05_rows
+  (version time : N) (descr impl_header : bytes)
+  (pos_rows : list (list text)) (impl_pos : bytes)
+  (nl nr : N) (lines : list (N * N * Z)) (impl_conn : bytes) (conn_reads : list (N * N * Z))
+  (offset : N) (user : bool) (rows : list rrow) (sys : list entry) (impl_words : bytes)
+  (dict_id nsys pos_offset : N) (dfs : list text) (rbs : list readback) : bool :=
+  match resolve_rows user rows sys with
+  | Some es => check_c05 version time descr impl_header pos_rows impl_pos nl nr lines impl_conn conn_reads
+                         offset es impl_words dict_id nsys pos_offset dfs rbs
+  | None => false
+  end.
+Definition check_c05_model_only_rows
+  (offset : N) (user : bool) (rows : list rrow) (sys : list entry) (impl_words : bytes)
+  (dict_id nsys pos_offset : N) (rbs : list readback) : bool :=
+  match resolve_rows user rows sys with
+  | Some es => check_c05_model_only offset es impl_words dict_id nsys pos_offset rbs
+  | None => false
+  end.
 
 (* ------------------------------------------------------------------ C11 *)
 (* raw WordInfoData as the implementation returned it for one subset *)
